@@ -175,6 +175,8 @@ def fdiv(a, b):
         return a
     if _conc(b) and b == 0:
         return DIVZERO(a)
+    if _conc(b):
+        return fmul(a, Fraction(1) / Fraction(b))
     # division by a symbolic term: multiply by recip(b) (keeps the obligations polynomial)
     return fmul(a, reciprocal(b))
 
